@@ -88,9 +88,9 @@ let run path =
           (fun acc tok ->
             if String.length tok > 5 && String.sub tok 0 5 = "root=" then
               let v = String.sub tok 5 (String.length tok - 5) in
-              if v = "sandbox" then "/sb1/sb2/root" else unescape "" v
+              if v = "sandbox" then "/sb1/sb2/sb3/root" else unescape "" v
             else acc)
-          "/sb1/sb2/root" (List.tl hdr)
+          "/sb1/sb2/sb3/root" (List.tl hdr)
       in
       let rootb = bytes_of_string root in
       let name s = bytes_of_string (unescape root s) in
